@@ -293,11 +293,49 @@ uint64_t bip32_part(int depth)
                     CExtPubKey pchild;
                     if (!pub.Derive(pchild, i) || !(pchild == child.Neuter()))
                         viol("bip32-public-private-mismatch " + seedhex + " " + p, "CExtPubKey::Derive differs from the neutered CExtKey::Derive", p);
+                    // in-place derivation (output object == parent), as BIP32PubkeyProvider::GetPubKey and the MuSig2 signer call it
+                    CExtPubKey inplace = pub;
+                    if (!inplace.Derive(inplace, i) || !(inplace == child.Neuter()) || EncodeExtPubKey(inplace) != EncodeExtPubKey(child.Neuter()))
+                        viol("bip32-public-inplace-mismatch " + seedhex + " " + p, "CExtPubKey::Derive into the parent object differs from the neutered CExtKey::Derive (depth/fingerprint/child number/key)", p);
+                }
+                {
+                    CExtKey inplace = k;
+                    if (!inplace.Derive(inplace, i) || !(inplace == child) || EncodeExtKey(inplace) != EncodeExtKey(child))
+                        viol("bip32-private-inplace-mismatch " + seedhex + " " + p, "CExtKey::Derive into the parent object differs from derivation into a fresh object", p);
                 }
                 rec(child, p, d - 1);
             }
         };
         rec(master, "", depth);
+        // the parent xpub a ranged descriptor caches (and the wallet persists) is the standard xpub of the path's last fixed step
+        for (const std::string& path : std::vector<std::string>{"/*", "/0/*", "/1/2/*", "/2147483647/0/1/*"}) {
+            const CExtPubKey root = master.Neuter();
+            FlatSigningProvider keys;
+            std::string err;
+            auto parsed = Parse("wpkh(" + EncodeExtPubKey(root) + path + ")", keys, err, false);
+            if (parsed.size() != 1) { viol("bip32-desc-cache-parse " + seedhex + " " + path, "ranged xpub descriptor does not parse: " + err, path); continue; }
+            CExtPubKey want = root;
+            size_t pos = 1;
+            while (path[pos] != '*') {
+                size_t e = path.find('/', pos);
+                CExtPubKey next;
+                if (!want.Derive(next, (uint32_t)std::stoul(path.substr(pos, e - pos)))) break;
+                want = next;
+                pos = e + 1;
+            }
+            DescriptorCache cache;
+            std::vector<CScript> scripts;
+            FlatSigningProvider out;
+            if (!parsed[0]->Expand(3, keys, scripts, out, &cache)) { viol("bip32-desc-cache-expand " + seedhex + " " + path, "Expand fails", path); continue; }
+            auto parents = cache.GetCachedParentExtPubKeys();
+            if (parents.size() != 1 || !(parents.begin()->second == want) || EncodeExtPubKey(parents.begin()->second) != EncodeExtPubKey(want))
+                viol("bip32-desc-cached-parent-xpub " + seedhex + " " + path, "the parent xpub cached by Expand differs from the standard derivation along the descriptor's path", path);
+            // expanding again from the cache alone gives the same script
+            std::vector<CScript> scripts2;
+            FlatSigningProvider out2;
+            if (!parsed[0]->ExpandFromCache(3, cache, scripts2, out2) || scripts2 != scripts)
+                viol("bip32-desc-cache-expand-differs " + seedhex + " " + path, "ExpandFromCache differs from Expand", path);
+        }
     }
     return n;
 }
